@@ -174,6 +174,18 @@ func c17Gen(c *Ctx) {
 	})
 	c.Note(fmt.Sprintf("part 2: all %d strings of length <= %d over {a z _ 0 A é} through SnakeToCamelCase (both flags), CamelCaseToSnake and the round trip", len(ids), IL))
 
+	// ---- part 0: every byte value at the positions the case helpers look at (first byte, after an underscore, after a
+	// lower-case letter, alone): the edges of the letter ranges ('A', 'Z', 'a', 'z' and their neighbours '@', '[', '`', '{')
+	c.Each(256, func(i int, t *T) {
+		b := byte(i)
+		for _, s := range [][]byte{{b}, {b, 'b'}, {b, 'B'}, {'x', b, 'y'}, {'a', '_', b}, {'a', '_', b, 'c'}, {'a', b, 'C'}, {b, b}, {b, 0xc3, 0xa9}} {
+			t.Try("every-byte/UcFirst", c17Case(8, s), true)
+			t.Try("every-byte/LcFirst", c17Case(9, s), true)
+			t.Try("every-byte/SnakeToCamelCase", c17Case(6, s, 0), true)
+			t.Try("every-byte/SnakeToCamelCase", c17Case(6, s, 1), true)
+			t.Try("every-byte/CamelCaseToSnake", c17Case(7, s), true)
+		}
+	})
 	// ---- part 1: every string of <= 3 pieces over the small alphabet, arguments 0..runes+3 (and -1)
 	K := c17SmallAlphabet
 	L := c.N(3, 4)
@@ -416,5 +428,5 @@ func c17Shrink(in []int64) [][]int64 {
 
 func init() {
 	Register(&Prop{ID: "C17", Num: 17, SpecMode: "rel", Gen: c17Gen, Impl: c17Impl, Shrink: c17Shrink, Describe: c17Describe,
-		Rule: "part 1 (exhaustive): every string of <= 3 (thorough 4) pieces over {a Z _ é € 😀 U+FFFD 0xff 0x80 E2-82} with Sub/Mask/SubByDisplay arguments from -1/0 to beyond the rune count and all other helpers; part 2 (exhaustive): every string of length <= 4 (6) over {a z _ 0 A é} through the case converters and their round trip; part 3: random strings of up to 9 pieces, one in 40 of 60..1600 pieces / identifiers of 20..420 words (16 pieces incl. surrogate/overlong/too-large encodings, random raw bytes) with in-range, edge, MaxInt-k, 2^31..2^62 and negative arguments. distinct = distinct (op, string, arguments); non-trivial = the string has >= 2 runes and a non-ASCII byte (identifier families: length >= 3; small/Mask additionally start+end < rune count)"})
+		Rule: "part 0 (exhaustive): every byte value alone, first, after an underscore, after a lower-case letter, through UcFirst/LcFirst/SnakeToCamelCase/CamelCaseToSnake; part 1 (exhaustive): every string of <= 3 (thorough 4) pieces over {a Z _ é € 😀 U+FFFD 0xff 0x80 E2-82} with Sub/Mask/SubByDisplay arguments from -1/0 to beyond the rune count and all other helpers; part 2 (exhaustive): every string of length <= 4 (6) over {a z _ 0 A é} through the case converters and their round trip; part 3: random strings of up to 9 pieces, one in 40 of 60..1600 pieces / identifiers of 20..420 words (16 pieces incl. surrogate/overlong/too-large encodings, random raw bytes) with in-range, edge, MaxInt-k, 2^31..2^62 and negative arguments. distinct = distinct (op, string, arguments); non-trivial = the string has >= 2 runes and a non-ASCII byte (identifier families: length >= 3; small/Mask additionally start+end < rune count)"})
 }
